@@ -1,5 +1,6 @@
 import SemverProofs.GenEquiv.Version
 import SemverModel.RangeFmt
+import SemverProofs.Lemmas.VersionOrder
 /-!
 # The definitions extracted from `src/range.rs` are the model's definitions (bounds and bound sets)
 -/
@@ -50,13 +51,25 @@ theorem n_le (a b : Nat) : Rust.le a b = decide (a ≤ b) := by
 theorem Bound_is_valid (b : Bound) : b.rs_is_valid = b.isValid := by
   rcases b with (p | p) <;> cases p <;> simp [Bound.rs_is_valid, Bound.isValid, n_le]
 
+/-- the version order is total: `a <= b` is `!(b < a)` (used when a test is written the other way round) -/
+theorem vle_not_vlt (a b : Version) : vle a b = !vlt b a := by
+  have h : cmpVersion a b = (cmpVersion b a).swap := Std.OrientedCmp.eq_swap
+  unfold vle vlt
+  rw [h]; cases cmpVersion b a <;> rfl
+
 theorem Bound_cmp (a b : Bound) : Bound.rs_cmp a b = cmpBound a b := by
   rcases a with (p | p) <;> rcases b with (q | q) <;> cases p <;> cases q <;>
-    simp [Bound.rs_cmp, cmpBound, v_cmp, v_lt, v_le]
+    simp [Bound.rs_cmp, cmpBound, v_cmp, v_lt, v_le] <;>
+    -- the same table with a test negated or turned round
+    (simp only [vle_not_vlt]; repeat' split) <;> simp_all
 
 theorem b_cmp (a b : Bound) : ROrd.cmp a b = cmpBound a b := Bound_cmp a b
 theorem b_lt (a b : Bound) : Rust.lt a b = a.lt b := by simp [Rust.lt, b_cmp, Bound.lt]
 theorem b_le (a b : Bound) : Rust.le a b = a.le b := by simp [Rust.le, b_cmp, Bound.le]
+theorem b_ge (a b : Bound) : Rust.ge a b = !(a.lt b) := by
+  simp only [Rust.ge, b_cmp, Bound.lt]; cases cmpBound a b <;> rfl
+theorem b_gt (a b : Bound) : Rust.gt a b = !(a.le b) := by
+  simp only [Rust.gt, b_cmp, Bound.le]; cases cmpBound a b <;> rfl
 theorem b_max (a b : Bound) : Rust.max a b = Bound.max a b := by simp [Rust.max, Bound.max, b_lt]
 theorem b_min (a b : Bound) : Rust.min a b = Bound.min a b := by simp [Rust.min, Bound.min, b_lt]
 
@@ -86,7 +99,11 @@ theorem BoundSet_satisfies (s : BoundSet) (v : Version) : s.rs_satisfies v = s.s
   unfold BoundSet.rs_satisfies BoundSet.satisfies BoundSet.within BoundSet.gate sameTuple
   simp only [id_run, id_pure, v_le, v_lt, Version.rs_is_prerelease, Version.isPre, Rust.is_empty, n_eq, Rust.unreachable]
   rcases l with (p | p) <;> rcases u with (q | q) <;> cases p <;> cases q <;>
-    simp <;> (repeat' split) <;> simp_all <;> (intro a b; cases ‹_ ∨ _› <;> simp_all)
+    simp <;> (repeat' split) <;> simp_all [Version.rs_is_prerelease, Rust.is_empty, Bool.and_assoc] <;>
+    first
+      | (intro a b; cases ‹_ ∨ _› <;> simp_all)
+      | (intros; cases ‹_ ∨ _› <;> simp_all)
+      | grind
 
 theorem BoundSet_min_version (s : BoundSet) : s.rs_min_version = s.minVersion := by
   obtain ⟨u, l⟩ := s
@@ -100,7 +117,7 @@ theorem BoundSet_allows_all (s o : BoundSet) : s.rs_allows_all o = s.allowsAll o
   simp [BoundSet.rs_allows_all, BoundSet.allowsAll, b_le]
 
 theorem BoundSet_allows_any (s o : BoundSet) : s.rs_allows_any o = s.allowsAny o := by
-  simp only [BoundSet.rs_allows_any, BoundSet.allowsAny, b_lt, id_run, id_pure]
+  simp only [BoundSet.rs_allows_any, BoundSet.allowsAny, b_lt, b_ge, b_le, b_gt, id_run, id_pure]
   -- whatever shape the two tests are written in: decide by cases on their outcomes
   try (cases h1 : o.upper.lt s.lower <;> cases h2 : s.upper.lt o.lower <;> simp_all)
 
@@ -118,27 +135,34 @@ model does not report a panic; that it never does on well-formed sets is `C06`/`
 theorem BoundSet_difference (s o : BoundSet) (h : s.difference o ≠ .panic) :
     s.rs_difference o = (s.difference o).value := by
   unfold BoundSet.rs_difference BoundSet.difference at *
-  simp only [id_run, id_pure, BoundSet_intersect, b_lt, Pred_flip, Bound_predicate, BoundSet_new, Rust.map, RMap.map]
+  simp only [id_run, id_pure, BoundSet_intersect, b_lt, b_ge, b_le, b_gt, Pred_flip, Bound_predicate, BoundSet_new, Rust.map, RMap.map]
   cases hi : s.intersect o with
   | none => simp [DiffRes.value]
   | some ov =>
     simp only [hi] at h
     have he : REq.eq ov s = ov.beq s := BoundSet_eq ov s
     simp only [he]
-    by_cases h1 : ov.beq s = true
-    · simp [h1, DiffRes.value]
-    · simp only [h1, Bool.false_eq_true, ↓reduceIte] at h ⊢
-      by_cases h2 : (s.lower.lt ov.lower && ov.upper.lt s.upper) = true
-      · simp only [h2, ↓reduceIte] at h ⊢
+    first
+    | -- the chain of early returns as written in the crate
+      (by_cases h1 : ov.beq s = true
+       · simp [h1, DiffRes.value]
+       · simp only [h1, Bool.false_eq_true, ↓reduceIte] at h ⊢
+         by_cases h2 : (s.lower.lt ov.lower && ov.upper.lt s.upper) = true
+         · simp only [h2, ↓reduceIte] at h ⊢
+           cases ha : BoundSet.new s.lower (up ov.lower.predicate.flip) <;>
+             cases hb : BoundSet.new (lo ov.upper.predicate.flip) s.upper <;>
+             simp_all [DiffRes.value, Rust.unwrap]
+         · simp only [h2, Bool.false_eq_true, ↓reduceIte] at h ⊢
+           by_cases h3 : s.lower.lt ov.lower = true
+           · simp only [h3, ↓reduceIte]
+             cases BoundSet.new s.lower (up ov.lower.predicate.flip) <;> simp [DiffRes.value]
+           · simp only [h3, Bool.false_eq_true, ↓reduceIte]
+             cases BoundSet.new (lo ov.upper.predicate.flip) s.upper <;> simp [DiffRes.value])
+    | -- any other arrangement of the same tests: decide by cases on their outcomes
+      (cases h1 : ov.beq s <;> cases h2 : s.lower.lt ov.lower <;> cases h3 : ov.upper.lt s.upper <;>
         cases ha : BoundSet.new s.lower (up ov.lower.predicate.flip) <;>
-          cases hb : BoundSet.new (lo ov.upper.predicate.flip) s.upper <;>
-          simp_all [DiffRes.value, Rust.unwrap]
-      · simp only [h2, Bool.false_eq_true, ↓reduceIte] at h ⊢
-        by_cases h3 : s.lower.lt ov.lower = true
-        · simp only [h3, ↓reduceIte]
-          cases BoundSet.new s.lower (up ov.lower.predicate.flip) <;> simp [DiffRes.value]
-        · simp only [h3, Bool.false_eq_true, ↓reduceIte]
-          cases BoundSet.new (lo ov.upper.predicate.flip) s.upper <;> simp [DiffRes.value]
+        cases hb : BoundSet.new (lo ov.upper.predicate.flip) s.upper <;>
+        simp_all [DiffRes.value, Rust.unwrap])
 
 theorem v_display (v : Version) : Rust.display v = v.render := Version_fmt v
 
